@@ -48,9 +48,9 @@ pub fn program(cls: &str, errfile: u64) -> (String, String) {
         "err_fileattr" => {
             // the defective file holds a file attribute and nothing else; the other file stands on its own
             if errfile == 1 {
-                ("[[bogus]]\n".to_owned(), "module B\nstruct SB { y: int32 }\n".to_owned())
+                ("[[oneway]]\n".to_owned(), "module B\nstruct SB { y: int32 }\n".to_owned())
             } else {
-                (good_a, "[[bogus]]\n".to_owned())
+                (good_a, "[[compress(Args)]]\n".to_owned())
             }
         }
         "warn" => {
